@@ -3,6 +3,7 @@
 package jtp
 
 import (
+	"fmt"
 	"math/rand"
 	"net/url"
 	"strings"
@@ -201,5 +202,27 @@ func TestVerifFetch(t *testing.T) {
 	for i := 0; i < in.Random; i++ {
 		sid++
 		verifRunSession(out, rng, sid, verifRandomSession(rng, i%4 == 0))
+	}
+	/* the budget the client really uses (20): chains just below, at and above it, visited in an order that
+	   would expose results leaking from one fetch into another */
+	for round := 0; round < 3; round++ {
+		world := map[string]verifsim.Resp{}
+		hosts := []string{"h1", "h2", "h3"}
+		id := func(k int) string { return fmt.Sprintf("%s/chain/l%d", hosts[k%3], k) }
+		world[id(0)] = verifsim.Resp{Status: 200, Ct: []string{"activity"}, Body: "obj", Doc: "d-end"}
+		for k := 1; k <= 24; k++ {
+			world[id(k)] = verifsim.Resp{Status: 301 + rng.Intn(2), Ct: []string{}, Body: "empty", Loc: id(k - 1), Doc: "-"}
+		}
+		orders := [][][2]int{
+			{{20, 20}, {21, 20}, {19, 20}, {21, 20}, {5, 3}, {5, 5}, {24, 20}, {4, 20}},
+			{{22, 20}, {3, 20}, {20, 20}, {21, 20}, {2, 1}, {1, 0}, {1, 1}},
+			{{10, 20}, {21, 20}, {20, 20}, {11, 9}, {11, 11}, {23, 20}, {3, 3}},
+		}
+		fetches := []verifFetch{}
+		for _, f := range orders[round] {
+			fetches = append(fetches, verifFetch{Url: id(f[0]), Kind: "activity", Budget: uint(f[1])})
+		}
+		sid++
+		verifRunSession(out, rng, sid, verifSessionIn{World: world, Cap: []int{2, 8, 64}[round], Fetches: fetches})
 	}
 }
